@@ -215,6 +215,10 @@ def call_result(ctx, cname, rid):
 
 
 def run(ctx):
+    ctx.rule('C06.R7', 'call() emits its own event, data, addressee (to or '
+             'sid), namespace and ignore_queue with a fresh callback', floor=2)
+    for fam in SA:
+        msgpath.call_forwarding(ctx, SERVER[fam], True, 'C06.R7')
     ctx.rule('C06.R1', 'trigger_callback: delete exactly the looked-up '
              'entry before invoking; unknown id is a silent no-op', floor=8)
     for fam in SA:
